@@ -104,6 +104,9 @@ def run(ctx):
         rep = any(any("replacement" in field_path(o.proj) for ff, o in ultimate_roots(prog, ar, c.args[1], TRANSPARENT | {"next", "into_iter", "deref"})) for c in ps)
         ctx.ob("R1", "apply_rewrite inserts the accepted replacement", rep, "push_str of diff.replacement", where=ar.loc())
     splice_purity(ctx, "R1")
+    # the accept filter's position (`end`) and everything else the printing thread remembers is per payload (C17 R7)
+    from .c17 import consumer_state
+    consumer_state(ctx, "R1")
     frame_agreement(ctx, "R1")
     pd = ctx.anchor("R1", r"^ast_grep::print::interactive_print::process_diffs_interactive$")
     if pd:
